@@ -129,7 +129,8 @@ def c11(chk):
             chk.ob('C11.a', r.sub, same,
                    chk.key(ENT, 'C11.a', r.fn, 'result-differs:decode=%s:process=%s' % (show_value(dres, prog)[:80], got[:80])),
                    'decoding accepts this input as %s but processing returns %s' % (show_value(dres, prog), got), site=r.sp,
-                   detail={'leaf': dump_leaf(lf, prog, na, heap=False), 'decoder_leaf': dump_leaf(D, prog, dna)})
+                   detail={'leaf': dump_leaf(lf, prog, na, heap=False), 'decoder_leaf': dump_leaf(D, prog, dna)},
+                   show='parent decoder leaf gives %s; processing gives %s' % (show_value(dres, prog)[:90], got[:120]))
         else:
             same = is_err(prog, lf.value) and lf.value[3][0] == dres[3][0]
             chk.ob('C11.a', r.sub, same,
@@ -424,7 +425,8 @@ def c13(chk):
         chk.ob('C13.b', r.sub + ' both halves', both,
                chk.key(ENT, 'C13.b', r.fn, 'halves:%s' % ','.join('%s=%s' % (k, show_term(v)) for k, v in sorted(targets.items()))),
                'an accepted assignment does not store the requested EID (request byte 12) in both halves: %s' % ', '.join('%s := %s' % (k, show_term(v)) for k, v in writes),
-               site=r.sp, detail={'leaf': dump_leaf(lf, prog, na)})
+               site=r.sp, detail={'leaf': dump_leaf(lf, prog, na)},
+               show='guard [%s]: %s' % ('; '.join(guard_text(lf, na)[-4:]), ', '.join('%s := %s' % (k, show_term(v)) for k, v in writes)))
         if lf.kind == 'return' and r.responds:
             ordered, why = resp_chain(r)
             ok = ordered is not None
@@ -567,7 +569,7 @@ def c14(chk):
         chk.ob('C14.layout', r.sub + ' vendor field', ok,
                chk.key(ENT, 'C14.layout', r.fn, 'vendor-field:format=%d:actual=%s' % (f, got)),
                'the vendor ID field for a %s set is [%s], expected [%s]' % ('PCI' if f == 0 else 'IANA', got, ' '.join(show_term(e) for e in exp)),
-               site=r.sp, detail={'leaf': dump_leaf(lf, prog, na)})
+               site=r.sp, detail={'leaf': dump_leaf(lf, prog, na)}, show='format %d: vendor field [%s]' % (f, got))
     # R-class over (i, n)
     pairs = 0
     for n in range(1, 17):
@@ -660,7 +662,7 @@ def c15(chk):
                chk.key(ENT, 'C15.layout', r.fn, '%s:n=%d:actual=%s' % (which, len(exp), got[:120])),
                'the answer to the %s query is cc=%s [%s], expected Success [%s]' % (
                    which, show_term(simp(know, cc)) if cc is not None else '?', got, ' '.join(show_term(e) for e in exp)),
-               site=r.sp, detail={'leaf': dump_leaf(lf, prog, na)})
+               site=r.sp, detail={'leaf': dump_leaf(lf, prog, na)}, show='%s query answered with [%s]' % (which, got[:160]))
         # R-dep
         syms = set()
         for a in ordered:
